@@ -76,6 +76,8 @@ def main():
             res["suite"] = {"summary": out.strip().splitlines()[-1:] , "failed_total": len(failed),
                             "new_failures": new[:20], "wall_s": round(time.time() - t0)}
             Path(jx).unlink(missing_ok=True)
+        if "--suite-only" in sys.argv:
+            return res
         t0 = time.time()
         rc, out = run([str(VERIF / "check"), pid, "--tier", tier], cwd=str(VERIF),
                       env={"VERIF_REPO": str(wt), "VERIF_JOBS": os.environ.get("VERIF_JOBS", "8")}, timeout=3 * 3600)
@@ -92,7 +94,7 @@ def main():
                 res["check"]["replay_excerpt"] = rp.read_text()[:1500]
         return res
     finally:
-        (sd / (("confirm" if suite else "confirm_nosuite") + ("" if pid == labelled else "_" + pid) + ".json")).write_text(json.dumps(res, indent=1))
+        (sd / (("suite" if "--suite-only" in sys.argv else "confirm" if suite else "confirm_nosuite") + ("" if pid == labelled else "_" + pid) + ".json")).write_text(json.dumps(res, indent=1))
         subprocess.run(["git", "-C", "/repo", "worktree", "remove", "--force", str(wt)], capture_output=True)
         import hashlib, shutil
         alt = VERIF / "build" / "alt" / hashlib.sha1(str(wt).encode()).hexdigest()[:10]
